@@ -67,10 +67,17 @@ class Exec:
         self.label = ""
         self.sync()
 
+    def _rev(self, fn):
+        """the kernel lists devices in no promised order: here the listing order is a function of the counters themselves
+        (it flips whenever one counter moves to a neighbouring value), so that two successive reads of the same device set
+        come in different orders without the order being a state variable of its own"""
+        return sum(v // 4 for vals in self.raw[fn].values() for v in vals.values()) % 2 == 1
+
     def sync(self):
         w = self.w
+        self.rev = {"net": self._rev("net"), "disk": self._rev("disk")}
         lines = [NET_HDR]
-        for d, vals in self.raw["net"].items():
+        for d, vals in (reversed(list(self.raw["net"].items())) if self.rev["net"] else self.raw["net"].items()):
             if self.present["net"][d]:
                 cols = [0] * 16
                 for f, v in vals.items():
@@ -78,7 +85,8 @@ class Exec:
                 lines.append(b"%6s: " % d.encode() + b" ".join(b"%d" % v for v in cols) + b"\n")
         w.set_file("/proc/net/dev", b"".join(lines))
         lines = []
-        for i, (d, vals) in enumerate(self.raw["disk"].items()):
+        order = list(enumerate(self.raw["disk"].items()))
+        for i, (d, vals) in (reversed(order) if self.rev["disk"] else order):
             if self.present["disk"][d]:
                 cols = [0] * 17
                 for f, v in vals.items():
@@ -272,8 +280,12 @@ def run_h(history):
 
 ROOTS = {
     # start also from states where a device already carries a wrap reminder
-    "net": [[["call", "net", True, True], ["set", "net", "y", "bytes_sent", 1], ["call", "net", True, True]]],
-    "disk": [[["call", "disk", True, True], ["set", "disk", "sda1", "read_count", 1], ["call", "disk", True, True]]],
+    "net": [[["call", "net", True, True], ["set", "net", "y", "bytes_sent", 1], ["call", "net", True, True]],
+            # ... the wrap was seen on a later snapshot than the device's second
+            [["call", "net", True, True], ["call", "net", True, True], ["set", "net", "y", "bytes_sent", 1], ["call", "net", True, True]]],
+    "disk": [[["call", "disk", True, True], ["set", "disk", "sda1", "read_count", 1], ["call", "disk", True, True]],
+             [["call", "disk", True, True], ["call", "disk", True, True], ["set", "disk", "sda1", "read_count", 1],
+              ["call", "disk", True, True]]],
     "both": [],
 }
 
